@@ -6,7 +6,7 @@ import itertools
 from hypothesis import strategies as st
 
 from .. import widths
-from ..cells import build, cells, cells_of_desc, show
+from ..cells import build, build_any, cells, cells_of_desc, show
 from ..common import Res, call, exc_str, hyp_campaign
 from ..widths import cw, layout, total
 
@@ -81,7 +81,18 @@ def check_slice(res, f, src, lay, W, marks_by_base, a, b, desc):
 def run_case(case):
     res = Res()
     desc = case["desc"]
-    f = build(desc, "chunks")
+    if case.get("build") == "observed_concat":
+        # built by repeated concatenation with every intermediate value measured first (memoised widths in play);
+        # runs without attributes are appended as plain str
+        from curtsies.formatstring import FmtStr, fmtstr
+
+        f = FmtStr()
+        for t, a in desc:
+            call(lambda: f.width)
+            f = f + (t if not a else fmtstr(t, **a))
+        res.label("observed_concat")
+    else:
+        f = build_any(desc, case.get("build", "chunks"), case.get("obs", 0))
     src = cells_of_desc(desc)
     lay = layout(src)
     W = total(src)
@@ -117,8 +128,22 @@ def run_case(case):
             res.viol("width_at_offset_wrong", n=n, desc=desc, got=got, expected=acc)
         if n < len(src):
             acc += cw(src[n][0])
-    for a in range(0, W + 3):
-        for b in range(a, W + 3):
+    if W <= 14:
+        edges = list(range(0, W + 3))
+    else:
+        # wide string: edges at, before and after every run boundary and around every double-width / zero-width character
+        pts = {0, 1, W - 1, W, W + 1, W + 2, W // 2}
+        for x, w, c, bi in lay:
+            if w != 1:
+                pts.update((x - 1, x, x + 1, x + 2))
+        pos = 0
+        for t, _ in desc:
+            for ch in t:
+                pos += cw(ch)
+            pts.update((pos - 1, pos, pos + 1))
+        edges = sorted(p for p in pts if 0 <= p <= W + 2)[:30]
+    for a in edges:
+        for b in [e for e in edges if e >= a]:
             evals += 1
             if a == b and any(x < a < x + w for x, w, c, bi in lay if w == 2):
                 res.label("empty_range_inside_wide")
@@ -142,9 +167,15 @@ def layouts(s):
 
 
 def strategy():
+    from ..gen import OBS as gen_OBS
+
     alpha = "ab" + "Ｅ中" + "̤́"
     run = st.tuples(st.text(alphabet=alpha, min_size=0, max_size=5), st.sampled_from(FMTS)).map(list)
-    return st.fixed_dictionaries({"desc": st.lists(run, min_size=0, max_size=5)})
+    long_run = st.tuples(st.text(alphabet=alpha + "aaab", min_size=10, max_size=70), st.sampled_from(FMTS)).map(list)
+    return st.fixed_dictionaries({"desc": st.one_of(st.lists(run, min_size=0, max_size=5), st.lists(run, min_size=0, max_size=5),
+                                                     st.lists(run, min_size=8, max_size=70), st.lists(long_run, min_size=1, max_size=3),
+                                                     st.tuples(st.lists(run, min_size=1, max_size=3), st.integers(2, 3)).map(lambda t: [list(r) for r in t[0]] * t[1])),
+                                  "build": st.sampled_from(["chunks", "chunks", "observed_concat", "d_mul", "d_slice", "d_concat", "d_removed", "d_copy"]), "obs": gen_OBS})
 
 
 def campaign(col, tier, seed, shard, nshards):
